@@ -454,15 +454,21 @@ def translate(pins: dict | None = None):
     v.append("Definition gen_sites : list (string * pre_form * string) := [")
     v.append(";\n".join(f"  ({cq_string(s)}, {f}, {cq_string(t)})" for s, f, t in sites))
     v.append("]%list.")
-    v.append(f"(* The theorems of Props/C15.v are about [shipped] and [fixed]; the code is the [{variant}] variant. *)")
-    v.append(f"Lemma C15_tie : gen = {variant}.")
-    v.append("Proof. vm_compute. reflexivity. Qed.")
-    v.append("Lemma C15_tie_sites : gen_sites = map site_of shipped_sites.")
-    v.append("Proof. vm_compute. reflexivity. Qed.")
-    return "\n".join(v) + "\n", got_pins, cfg, variant, sites
+    t = []
+    t.append("(* GENERATED by translate/tr_evalkey.py -- do not edit *)")
+    t.append("From Coq Require Import List String.")
+    t.append("From RV Require Import Model.EvalKey Model.EvalKeyTags Gen.C15Gen.")
+    t.append(f"(* The theorems of Props/C15.v are about [shipped] and [fixed]; the code is the [{variant}] variant. *)")
+    t.append(f"Lemma C15_tie : gen = {variant}.")
+    t.append("Proof. vm_compute. reflexivity. Qed.")
+    t.append("(* every hash_struct / hash_tag_bytes call site and its leading tag, as the kind table assumes *)")
+    t.append("Lemma C15_tie_sites : gen_sites = map site_of shipped_sites.")
+    t.append("Proof. vm_compute. reflexivity. Qed.")
+    return "\n".join(v) + "\n", "\n".join(t) + "\n", got_pins, cfg, variant, sites
 
 
 if __name__ == "__main__":
-    text, pins, cfg, variant, sites = translate()
+    text, tie, pins, cfg, variant, sites = translate()
     sys.stdout.write(text)
+    sys.stdout.write(tie)
     print(pins, cfg, variant, file=sys.stderr)
